@@ -26,7 +26,7 @@ def run(ctx, res):
                 res.known_hits.append(('F24', '%s: %r on %r gives only x(), the derivation through the second alternative (tree y()) is missing' % (f['what'], w['grammar'], w['text'])))
             elif sorted(got) != ['["T", "x", []]', '["T", "y", []]']:
                 res.violation('the pinned witness of F24 behaves in a new way', dict(w, got=got))
-    jobs, outs = forestlib.forest_stream(ctx, 4, {'c04'}, 1500, 20000, prio=False)
+    jobs, outs = forestlib.forest_stream(ctx, 4, {'c04'}, 2500, 22000, prio=False)
     for job, rec in problems(res, jobs, outs, 'parsing with ambiguity=explicit'):
         if 'gerr' in rec:
             res.count('grammar_error'); continue
